@@ -46,6 +46,21 @@ type Case struct {
 	ZE   uint32 `json:"ze"`
 	Lon  gen.F  `json:"lon"`
 	Lat  gen.F  `json:"lat"`
+	// noise calls (class D): Pre runs before the first judgement, Mid between
+	// two observations of the same checked calls, which must not differ.
+	Pre []Noise `json:"pre,omitempty"`
+	Mid []Noise `json:"mid,omitempty"`
+}
+
+// Noise is one call to a maptile entry point that the property does not
+// mention; its result is not judged.
+type Noise struct {
+	Op  string `json:"op"`
+	T   T      `json:"t"`
+	Buf gen.F  `json:"buf"`
+	Z   uint32 `json:"z"`
+	P   gen.P  `json:"p"`
+	K   uint64 `json:"k"`
 }
 
 const (
@@ -142,7 +157,39 @@ func polarCentre(t T) bool {
 
 // ---------------------------------------------------------------- oracles
 
+// checkCase judges the case; when it carries noise calls the order is:
+// Pre noise, judgement against the model, observation, Mid noise, observation
+// (must equal the first one bit for bit), judgement against the model again.
 func checkCase(c Case) error {
+	if len(c.Pre) == 0 && len(c.Mid) == 0 {
+		return checkCore(c)
+	}
+	for _, n := range c.Pre {
+		runNoise(n)
+	}
+	if err := checkCore(c); err != nil {
+		return fmt.Errorf("after the noise calls %s: %w", gen.JSON(c.Pre), err)
+	}
+	before := observe(c)
+	for _, n := range c.Mid {
+		runNoise(n)
+	}
+	after := observe(c)
+	if len(before) != len(after) {
+		return fmt.Errorf("the checked calls returned %d values before and %d after the noise calls %s", len(before), len(after), gen.JSON(c.Mid))
+	}
+	for i := range before {
+		if before[i] != after[i] {
+			return fmt.Errorf("checked value %d changed from %#x (%v) to %#x (%v) across the noise calls %s", i, before[i], math.Float64frombits(before[i]), after[i], math.Float64frombits(after[i]), gen.JSON(c.Mid))
+		}
+	}
+	if err := checkCore(c); err != nil {
+		return fmt.Errorf("after the noise calls %s: %w", gen.JSON(c.Mid), err)
+	}
+	return nil
+}
+
+func checkCore(c Case) error {
 	switch c.Kind {
 	case "tile":
 		return checkTile(c.A, false)
@@ -646,6 +693,20 @@ func genPair(rt *rapid.T) (T, T, int) {
 func TestPropTile(t *testing.T) {
 	stats.Assume("tiles have zoom 0..30 (their children reach zoom 31); zoom 31 and invalid tiles are only judged for Valid()")
 	stats.Check(t, 800000, 4000000, func(rt *rapid.T) {
+		c, nt := drawTile(rt)
+		if nt {
+			stats.NonTrivial(gen.JSON(c))
+			if stats.WantSample("tile") {
+				stats.Sample("tile", c)
+			}
+		}
+		stats.Try(rt, "TestPropTile", c, func() error { return checkCase(c) })
+	})
+}
+
+// drawTile draws one case of TestPropTile and reports whether it is non-trivial.
+func drawTile(rt *rapid.T) (Case, bool) {
+	{
 		var c Case
 		c.Kind = "tile"
 		if rapid.IntRange(0, 19).Draw(rt, "invalid") == 0 {
@@ -676,18 +737,25 @@ func TestPropTile(t *testing.T) {
 			stats.Class("tile:y " + patNames[py])
 		}
 		stats.Class("tile " + zoomBand(c.A.Z))
-		if c.A.valid() && c.A.Z <= maxZoom && highBit(c.A) {
-			stats.NonTrivial(gen.JSON(c))
-			if stats.WantSample("tile") {
-				stats.Sample("tile", c)
-			}
-		}
-		stats.Try(rt, "TestPropTile", c, func() error { return checkCase(c) })
-	})
+		return c, c.A.valid() && c.A.Z <= maxZoom && highBit(c.A)
+	}
 }
 
 func TestPropPair(t *testing.T) {
 	stats.Check(t, 800000, 4000000, func(rt *rapid.T) {
+		c, nt := drawPair(rt)
+		if nt {
+			stats.NonTrivial(gen.JSON(c))
+			if stats.WantSample("pair") {
+				stats.Sample("pair", c)
+			}
+		}
+		stats.Try(rt, "TestPropPair", c, func() error { return checkCase(c) })
+	})
+}
+
+func drawPair(rt *rapid.T) (Case, bool) {
+	{
 		a, b, rel := genPair(rt)
 		c := Case{Kind: "pair", A: a, B: b}
 		stats.Class("pair:" + relNames[rel])
@@ -702,19 +770,26 @@ func TestPropPair(t *testing.T) {
 		default:
 			stats.Class("pair is:cousins under a deeper ancestor")
 		}
-		if a.Z != b.Z || (a != b && (highBit(a) || highBit(b))) {
-			stats.NonTrivial(gen.JSON(c))
-			if stats.WantSample("pair") {
-				stats.Sample("pair", c)
-			}
-		}
-		stats.Try(rt, "TestPropPair", c, func() error { return checkCase(c) })
-	})
+		return c, a.Z != b.Z || (a != b && (highBit(a) || highBit(b)))
+	}
 }
 
 func TestPropRange(t *testing.T) {
 	stats.Assume("Range and ChildrenInZoomRange are asked for zooms 0..30; ChildrenInZoomRange for at most 6 zooms below the tile (<= 5461 tiles) and only with tile.Z <= zoomStart <= zoomEnd (other arguments panic by documentation)")
 	stats.Check(t, 400000, 1500000, func(rt *rapid.T) {
+		c, nt := drawRange(rt)
+		if nt {
+			stats.NonTrivial(gen.JSON(c))
+			if stats.WantSample("range") {
+				stats.Sample("range", c)
+			}
+		}
+		stats.Try(rt, "TestPropRange", c, func() error { return checkCase(c) })
+	})
+}
+
+func drawRange(rt *rapid.T) (Case, bool) {
+	{
 		a, _, _ := genTile(rt, 0, maxZoom)
 		c := Case{Kind: "range", A: a}
 		c.Z2 = rapid.Uint32Range(0, maxZoom).Draw(rt, "z2")
@@ -743,14 +818,8 @@ func TestPropRange(t *testing.T) {
 			stats.Class(fmt.Sprintf("children-in-zoom-range:depth %d", de))
 		}
 		stats.Class("range " + zoomBand(a.Z))
-		if c.Z2 != a.Z || (c.CIZR && c.ZE > a.Z) {
-			stats.NonTrivial(gen.JSON(c))
-			if stats.WantSample("range") {
-				stats.Sample("range", c)
-			}
-		}
-		stats.Try(rt, "TestPropRange", c, func() error { return checkCase(c) })
-	})
+		return c, c.Z2 != a.Z || (c.CIZR && c.ZE > a.Z)
+	}
 }
 
 var lonNames = []string{"uniform", "+180", "-180", "edge of this zoom", "edge of another zoom", "edge +-1ulp", "integer", "zero", "next to +-180"}
@@ -886,14 +955,8 @@ func TestPropPoint(t *testing.T) {
 	stats.Assume("points have longitude in [-180, 180] and any latitude except NaN (+-Inf and +-MaxFloat64 included); zoom 0..30")
 	stats.Assume("for latitudes strictly between 85.0511 and 85.05112877980659 (either sign) the quantifier's clamp is accepted: the tile may be the top/bottom row even when its bound does not contain the latitude")
 	stats.Check(t, 800000, 4000000, func(rt *rapid.T) {
-		z := genZoom(rt, 0, maxZoom)
-		lon, lk := genLon(rt, z)
-		lat, ak := genLat(rt, z)
-		c := Case{Kind: "point", A: T{Z: z}, Lon: gen.F(lon), Lat: gen.F(lat)}
-		stats.Class("lon:" + lonNames[lk])
-		stats.Class("lat:" + latNames[ak])
-		stats.Class("point " + zoomBand(z))
-		if z >= 1 && onEdge(lon, lat, z, ak) {
+		c, nt := drawPoint(rt)
+		if nt {
 			stats.NonTrivial(gen.JSON(c))
 			if stats.WantSample("point") {
 				stats.Sample("point", c)
@@ -901,6 +964,19 @@ func TestPropPoint(t *testing.T) {
 		}
 		stats.Try(rt, "TestPropPoint", c, func() error { return checkCase(c) })
 	})
+}
+
+func drawPoint(rt *rapid.T) (Case, bool) {
+	{
+		z := genZoom(rt, 0, maxZoom)
+		lon, lk := genLon(rt, z)
+		lat, ak := genLat(rt, z)
+		c := Case{Kind: "point", A: T{Z: z}, Lon: gen.F(lon), Lat: gen.F(lat)}
+		stats.Class("lon:" + lonNames[lk])
+		stats.Class("lat:" + latNames[ak])
+		stats.Class("point " + zoomBand(z))
+		return c, z >= 1 && onEdge(lon, lat, z, ak)
+	}
 }
 
 // ---------------------------------------------------------------- enumerations
@@ -1095,9 +1171,21 @@ func TestKnownPolarCentre(t *testing.T) {
 // ---------------------------------------------------------------- replay
 
 func TestReplay(t *testing.T) {
-	_, raw, ok := stats.Replaying()
+	name, raw, ok := stats.Replaying()
 	if !ok {
 		t.Skip("no replay file")
+	}
+	if name == "TestPropConcurrent" {
+		var cs []Case
+		if err := json.Unmarshal(raw, &cs); err != nil {
+			t.Fatal(err)
+		}
+		for k := 0; k < 20; k++ {
+			if err := stats.ParallelErr(len(cs), 200, func(i int) error { return checkCase(cs[i]) }); err != nil {
+				t.Fatalf("replayed concurrent group still fails: %v", err)
+			}
+		}
+		return
 	}
 	var c Case
 	if err := json.Unmarshal(raw, &c); err != nil {
